@@ -316,6 +316,62 @@ def shard_text(pairs):
             "Eval vm_compute in (map fst rep_exact).\nEval vm_compute in (map snd rep_exact).\n")
 
 
+# ---- Coq encoding of object histories ---------------------------------------------------------------
+def coq_optq(x):
+    return "None" if x is None else "(Some {})".format(qlit(dec(x)))
+
+
+def coq_history(h, recs):
+    """(ostate, [(oop, obs)]) from a history and what the implementation did; None if it cannot be encoded"""
+    new = recs[0]
+    if "exn" in new:
+        return None
+    c = new.get("consts") or {}
+    if h["obj"][0] == "repeated":
+        stats = "(Some {{| st_std := {}; st_eom := {}; st_ewm := {}; st_prop := {} |}})".format(
+            qlit(dec(c["std"])), qlit(dec(c["eom"])), coq_optq(c["ewm"]), coq_optq(c["prop"]))
+    else:
+        stats = "None"
+    st = "{{| s_value := {}; s_error := {}; s_stats := {}; s_style := Default; s_cfg := {{| c_mode := Auto; c_n := 1 |}} |}}".format(
+        qlit(dec(new["value"])), qlit(dec(new["error"])), stats)
+    items = []
+    for r in recs[1:]:
+        op = r["op"]
+        k = op[0]
+        if k != "print" and ("exn" in r or "skipped" in r):
+            continue                                      # rejected or non-existent operation: the state is unchanged
+        if k == "config":
+            o = "(OConfig {} {} {})".format(COQ_STYLE[op[1]], COQ_MODE[op[2]], op[3])
+        elif k == "print":
+            o = "OPrint"
+        elif k in ("value", "error", "rel"):
+            o = "({} {})".format({"value": "OSetValue", "error": "OSetError", "rel": "OSetRel"}[k], qlit(dec(float(op[1]))))
+        else:
+            o = {"use_std": "OUseStd", "use_eom": "OUseEom", "use_ewm": "OUseEwm", "use_prop": "OUseProp"}[k]
+        obs = coq_obs(r["text"] if "text" in r else ("raised", r.get("exn", ""))) if k == "print" else "None"
+        items.append("({}, {})".format(o, obs))
+    return "({}, [{}])".format(st, "; ".join(items)), [r for r in recs[1:] if not (r["op"][0] != "print" and ("exn" in r or "skipped" in r))]
+
+
+def hshard_text(cases):
+    return (HEADER + "From QV Require Import Model.PrintingObj.\nOpen Scope Z_scope.\n"
+            "Definition cases : list hcase := [\n" + ";\n".join(cases) + "].\n"
+            "Definition rep_any := Eval vm_compute in (hreport bad_hist_any cases).\n"
+            "Definition rep_exact := Eval vm_compute in (hreport bad_hist_exact cases).\n"
+            "Eval vm_compute in (map fst rep_any).\nEval vm_compute in (map snd rep_any).\n"
+            "Eval vm_compute in (map fst rep_exact).\nEval vm_compute in (map snd rep_exact).\n")
+
+
+def history_in_scope(recs):
+    """every print of the history is within float precision of the exact model (<= 14 significant digits)"""
+    for r in recs:
+        if r["op"][0] == "print" and "cfg" in r:
+            st, mo, n = r["cfg"]
+            if ideal_digits(st, mo, n, dec(r["value"]), abs(dec(r["error"]))) > 12:
+                return False
+    return True
+
+
 # ---- tags (what makes a case non-trivial), computed from the inputs and the printed text ----------------
 def tags(style, mode, n, v, e, out):
     t = []
@@ -359,7 +415,7 @@ def load_corpus():
 def correspondence(ctx):
     res = CorrResult()
     rng = ctx.rng
-    n_pairs = ctx.n(3000, 40000)
+    n_pairs = ctx.n(2000, 40000)
     per_pair = ctx.n(9, 12)
     n_wild = ctx.n(300, 6000)
     configs = all_configs()
@@ -433,6 +489,43 @@ def correspondence(ctx):
     if cur:
         shards.append(shard_text([pairs[j][:3] for j in cur]))
         index.append(cur)
+    # object histories
+    hists, hcur, hindex, n_hprints, h_skipped = [], [], [], 0, 0
+    hist_corpus = [c["case"] for c in load_corpus() if c.get("kind") == "history"]
+    for i in range(ctx.n(600, 12000) + len(hist_corpus)):
+        h = hist_corpus[i] if i < len(hist_corpus) else gen_history(rng)
+        recs = run_history(h)
+        if "exn" in recs[0] or not history_in_scope(recs):
+            h_skipped += 1
+            continue
+        enc = coq_history(h, recs)
+        if enc is None:
+            h_skipped += 1
+            continue
+        text, kept = enc
+        hists.append((h, recs, kept))
+        hcur.append((len(hists) - 1, text))
+        prints = sum(1 for r in kept if r["op"][0] == "print")
+        n_hprints += prints
+        res.evaluations += prints
+        res.traces += 1
+        res.count("history:{}".format(h["obj"][0]))
+        for r in kept:
+            res.count("history-op:" + r["op"][0])
+        mods = [j for j, r in enumerate(kept) if r["op"][0] not in ("print", "config")]
+        prs = [j for j, r in enumerate(kept) if r["op"][0] == "print"]
+        if mods and prs and prs[0] < mods[-1] < prs[-1]:
+            res.nontrivial.add(core.canonical_key("h", h))     # printed, modified, printed again
+        if len(hcur) >= 120:
+            shards.append(hshard_text([t for _, t in hcur]))
+            index.append(("hist", [j for j, _ in hcur]))
+            hcur = []
+    if hcur:
+        shards.append(hshard_text([t for _, t in hcur]))
+        index.append(("hist", [j for j, _ in hcur]))
+    res.extra["history_prints"] = n_hprints
+    res.extra["histories"] = len(hists)
+    res.extra["histories_skipped_out_of_precision"] = h_skipped
     bads, logs = coq.run_case_files(ID, shards, keep=getattr(ctx, "keep_cases", False))
     near = 0
     near_samples = []
@@ -443,6 +536,16 @@ def correspondence(ctx):
             continue
         any_bad = set(zip(bad[0], bad[1]))
         exact_bad = set(zip(bad[2], bad[3]))
+        if isinstance(idx, tuple):           # a shard of object histories
+            for (i, j) in sorted(exact_bad):
+                h, recs, kept = hists[idx[1][i]]
+                if (i, j) in any_bad:
+                    res.disagreements.append({"name": "Model.PrintingObj.run vs str/repr/print_value_error of a modified object",
+                                              "kind": "history", "case": h, "step": j,
+                                              "printed": kept[j].get("text", kept[j].get("exn"))})
+                else:
+                    near += 1
+            continue
         for (i, j) in sorted(exact_bad):
             v, e, ks, kind = pairs[idx[i]]
             s, m, n, out = ks[j]
@@ -471,7 +574,13 @@ def correspondence(ctx):
                 "tie both roundings are admitted (near_ties). Configurations whose correct text needs > 12 digits are skipped "
                 "(outside the property). non-trivial = at least one of: carry into the next decade, tie, zero value, zero "
                 "uncertainty, negative value, non-zero exponent, scientific fallback to default, rounding place left of the units; "
-                "distinct by (style, mode, n, value, uncertainty)").format(per_pair)
+                "distinct by (style, mode, n, value, uncertainty). "
+                "Object histories: a single or repeated Measurement, 5-15 operations out of print (str / repr / "
+                "print_value_error / format / after printing another object), value / error / relative_error assignment, "
+                "use_std / use_error_on_mean / use_error_weighted_mean / use_propagated_error and changes between two print "
+                "configurations; the model state (Model/PrintingObj.v) follows the operations and every printed text is compared "
+                "with the model printer on the model's current pair; a history is non-trivial when a modification lies between "
+                "two prints").format(per_pair)
     ex = [p for p in pairs if p[3] == "stream"][:3]
     res.samples = [{"value": repr(v), "uncertainty": repr(e),
                     "printed": [{"style": s, "mode": m, "n": n, "text": out} for s, m, n, out in ks[:3]]} for v, e, ks, _ in ex]
